@@ -10,12 +10,11 @@
       `native_nodup`       and has no duplicate if the source's items are distinct;
     * `native_independent` what passes of a key depends on that key's items and ticks only;
     * `native_complete`, `native_error`  the source's completion / error is propagated after the items
-                           (`native` = every schedule in which no ticker fires inside the completion of the source);
-    * KNOWN FINDING (pinned tree): under a schedule where the ticker of an existing group fires between
-      WindowWhen closing its last window and completing its destination, the completion is LOST
-      (`late_tick_witness`, `native_sched_late`); `native_sched_partial` is the property outside that class,
-      `native_sched_error`: errors are propagated under every schedule. Full statement, false on the pinned tree:
-        ∀ n tl late, nativeSched n tl .complete late = (run n tl).map item ++ [.complete]
+                           under EVERY schedule, including the ticks that are served while the terminal of the
+                           source is being processed: `native_sched` (nativeSched n tl e late = native n tl e for every
+                           `late`), `native_sched_complete`, `native_sched_error`. (Before /repo a396a6b a tick between
+                           WindowWhen closing its last window and completing its destination lost the completion; the
+                           harness still drives those schedules, `latetick=all`, and `late_tick_regression` pins the case.)
     * `native_quota_span`  arithmetic corollary: whatever the alignment of the window grid, in every span
                            of length `L` at most n·(⌊L/w⌋+2) items of one key pass
                            (`span_meets_windows`: the span meets at most ⌊L/w⌋+2 windows).
@@ -68,23 +67,21 @@ theorem native_complete (n : Nat) (tl : List (Ev κ α)) :
 theorem native_error (n : Nat) (tl : List (Ev κ α)) (x : Err) :
     native n tl (.error x) = (run n tl).map (fun p => Out.item p.1 p.2) ++ [.error x] := RateLimit.native_error n tl x
 
-theorem native_sched_partial (n : Nat) (tl : List (Ev κ α)) (e : End) (late : List κ)
-    (h : late.any (fun k => hasGroup k tl) = false) : nativeSched n tl e late = native n tl e :=
-  nativeSched_partial n tl e late h
+theorem native_sched (n : Nat) (tl : List (Ev κ α)) (e : End) (late : List κ) :
+    nativeSched n tl e late = native n tl e := nativeSched_eq n tl e late
+
+theorem native_sched_complete (n : Nat) (tl : List (Ev κ α)) (late : List κ) :
+    nativeSched n tl .complete late = (run n tl).map (fun p => Out.item p.1 p.2) ++ [.complete] :=
+  nativeSched_complete n tl late
 
 theorem native_sched_error (n : Nat) (tl : List (Ev κ α)) (x : Err) (late : List κ) :
     nativeSched n tl (.error x) late = (run n tl).map (fun p => Out.item p.1 p.2) ++ [.error x] :=
   nativeSched_error n tl x late
 
-theorem native_sched_late (n : Nat) (tl : List (Ev κ α)) (late : List κ)
-    (h : late.any (fun k => hasGroup k tl) = true) :
-    nativeSched n tl .complete late = (run n tl).map (fun p => Out.item p.1 p.2) := nativeSched_late n tl late h
-
-/-- the witness replayed on the real code (known_findings.jsonl): quota 2, one item of key 0, the
-    source completes and key 0's ticker fires inside the completion: the item passes, no Complete -/
-theorem late_tick_witness :
-    nativeSched 2 [Ev.item 0 1] .complete [0] = [Out.item 0 (1 : Nat)]
-    ∧ native 2 [Ev.item 0 1] .complete = [Out.item 0 (1 : Nat), .complete] := by decide
+/-- the former witness of the lost completion (quota 2, one item of key 0, key 0's ticker fires
+    inside the completion), now with its Complete; replayed by the `latetick=all` cases -/
+theorem late_tick_regression :
+    nativeSched 2 [Ev.item 0 1] .complete [0] = [Out.item 0 (1 : Nat), .complete] := by decide
 
 theorem span_meets_windows (w o a L : Nat) (hw : 0 < w) : widx w o (a + L) + 1 ≤ widx w o a + (L / w + 2) :=
   span_windows w o a L hw
@@ -167,10 +164,10 @@ end Ro.C20
 #print axioms Ro.C20.native_independent
 #print axioms Ro.C20.native_complete
 #print axioms Ro.C20.native_error
-#print axioms Ro.C20.native_sched_partial
+#print axioms Ro.C20.native_sched
+#print axioms Ro.C20.native_sched_complete
 #print axioms Ro.C20.native_sched_error
-#print axioms Ro.C20.native_sched_late
-#print axioms Ro.C20.late_tick_witness
+#print axioms Ro.C20.late_tick_regression
 #print axioms Ro.C20.native_composition
 #print axioms Ro.C20.span_meets_windows
 #print axioms Ro.C20.native_quota_span
